@@ -22,7 +22,7 @@ ASSUMPTIONS = [
     "real-valued parameters are covered on the finite catalogue + VERIF_SEED-indexed generic reals (cond<=1e3) only",
     "sizes bounded: D<=4, R<=3; W entries from {-1,0,1}",
 ]
-BOUNDS = {"quick": dict(D=[1, 2, 3, 4], R=[1, 2, 4]), "thorough": dict(D=[1, 2, 3, 4, 5], R=[1, 2, 3, 4])}
+BOUNDS = {"quick": dict(D=[1, 2, 3, 4], R=[1, 2, 4]), "thorough": dict(D=[1, 2, 3, 4, 5, 6], R=[1, 2, 3, 4, 5])}
 BUDGET = {"quick": 600, "thorough": 3600}
 
 
@@ -55,7 +55,7 @@ def run_marg(shard, ctx):
     tier, seed = shard["tier"], shard["seed"]
     kind, D = shard["kind"], shard["D"]
     diag = "Diag" in kind
-    vis = [0, 100, objs.HARD] if tier == "quick" else [0, 1, 2, 100, 101, objs.HARD]
+    vis = [0, 100, objs.HARD] if tier == "quick" else [0, 1, 2, 100, 101, 102, 103, 104, 105, objs.HARD]
     for R in (BOUNDS[tier]["R"] if not shard.get("large") else [5]):
         for vi in vis:
             tag = ("c05", kind, D, R)
